@@ -16,7 +16,7 @@ import (
 func init() {
 	register("C52", c52)
 	meta("C52", Meta{
-		Text:      "Decides, for every write to the HTML output writer (goldmark util.BufWriter) in gno.land/pkg/gnoweb/markdown and for the plain-text fallback in gno.land/pkg/gnoweb, that each written value is a compile-time constant, a formatted number, the result of an HTML escaper (HTMLEscapeString, html.EscapeString, template.HTMLEscapeString, goldmark util.EscapeHTML), or is built only from such values (local variables by all their assignments, struct fields by all their writes in the package, node attributes by all SetAttributeString sites, helper results by all their return statements); that the link destination is written only when !IsDangerousURL(destination) holds and through URLEscape+EscapeHTML; that the output writer is handed only to a frozen set of external renderers; that goldmark's WithUnsafe is referenced only in NewRouter under `if cfg.UnsafeHTML`, a field no code in the package sets and the default config leaves false; that the default goldmark options install the image validator and the inner <gno-foreign> instance is built without renderer options. Level 'other': a taint rule over the extension code, not a proof about goldmark's core renderer.",
+		Text:      "Decides, for every write to the HTML output writer (goldmark util.BufWriter) in gno.land/pkg/gnoweb/markdown and for the plain-text fallback in gno.land/pkg/gnoweb, that each written value is a compile-time constant, a formatted number, the result of an HTML escaper (HTMLEscapeString, html.EscapeString, template.HTMLEscapeString, goldmark util.EscapeHTML), or is built only from such values (local variables by all their assignments, struct fields by all their writes in the package, node attributes by all SetAttributeString sites, helper results by all their return statements); that the link destination is written only when !IsDangerousURL(destination) holds and through URLEscape+EscapeHTML; that the output writer is handed only to a frozen set of external renderers; that every reference to goldmark's WithUnsafe sits on the true side of a test of the AppConfig.UnsafeHTML field, a field no code in the package sets and the default config leaves false; that the default goldmark options install the image validator and the inner <gno-foreign> instance is built without renderer options. Level 'other': a taint rule over the extension code, not a proof about goldmark's core renderer.",
 		Note:      "Not covered: goldmark core (paragraphs, images, raw HTML stripping in safe mode, IsDangerousURL's scheme list), chroma's formatter, html/template components, the gnoweb frontend JS, the cmd/gnoweb flag default. Sanitiser functions are trusted by name.",
 		Technique: "R-TAINT (AST value-origin with per-package field/attribute/return summaries), R-DOM gate on the URL write, R-WHO on WithUnsafe and on the writer",
 		Ref:       "DESIGN.md §2 C52",
@@ -214,7 +214,7 @@ func (t *c52Taint) varSafe1(f *engine.Fn, v *types.Var) (bool, string) {
 		walkParams(l.Type, nil)
 	}
 	if isParam {
-		return false, "parameter " + v.Name() + " (callers not summarised)"
+		return t.paramSafe(root, v)
 	}
 	ok, why := true, ""
 	found := 0
@@ -332,6 +332,57 @@ func (t *c52Taint) varSafe1(f *engine.Fn, v *types.Var) (bool, string) {
 		return false, "no assignment to " + v.Name() + " found"
 	}
 	return ok, why
+}
+
+// paramSafe: a parameter of an unexported declared function is safe when the
+// corresponding argument is safe at every call site in the analysed packages and
+// the function is never used as a value (extract-helper refactors pass escaped or
+// constant data down).
+func (t *c52Taint) paramSafe(root *engine.Fn, v *types.Var) (bool, string) {
+	if root.Decl == nil || root.Obj == nil || root.Obj.Exported() {
+		return false, "parameter " + v.Name() + " of an exported function or literal (callers unknown)"
+	}
+	idx, k := -1, 0
+	for _, fld := range root.Type.Params.List {
+		if _, variadic := fld.Type.(*ast.Ellipsis); variadic {
+			for range fld.Names {
+				k++
+			}
+			continue
+		}
+		for _, nm := range fld.Names {
+			if root.Info().ObjectOf(nm) == v {
+				idx = k
+			}
+			k++
+		}
+	}
+	if idx < 0 {
+		return false, "parameter " + v.Name() + " (receiver, result or variadic)"
+	}
+	refs := t.p.RefsTo(func(o types.Object) bool { return o == types.Object(root.Obj) })
+	if len(refs) == 0 {
+		return false, "parameter " + v.Name() + ": no caller found"
+	}
+	for _, r := range refs {
+		if !r.IsCall || r.Fn == nil {
+			return false, "parameter " + v.Name() + ": " + root.Name + " is used as a value"
+		}
+		var call *ast.CallExpr
+		ast.Inspect(r.Fn.Body, func(n ast.Node) bool {
+			if ce, ok := n.(*ast.CallExpr); ok && ce.Pos() <= r.Ident.Pos() && r.Ident.End() <= ce.Fun.End() {
+				call = ce
+			}
+			return true
+		})
+		if call == nil || idx >= len(call.Args) {
+			return false, "parameter " + v.Name() + ": call site not resolved"
+		}
+		if ok, why := t.safe(r.Fn, call.Args[idx]); !ok {
+			return false, v.Name() + " ← (argument in " + r.Fn.Root().Name + ") " + why
+		}
+	}
+	return true, ""
 }
 
 // fieldSafe: a field of a package-local struct is safe when every value stored in it is.
@@ -580,7 +631,7 @@ func c52IsBufWriter(t types.Type) bool {
 }
 
 func c52(c *engine.Ctx) {
-	c.Explain = "R-TAINT over gno.land/pkg/gnoweb/markdown (+ the plain-text fallback in gno.land/pkg/gnoweb): every value written to the HTML output writer is a constant, a formatted number, an HTML-escaper result, or built only from such values (locals by all assignments, package struct fields by all writes, node attributes by all SetAttributeString sites, helper results by all returns); the link destination is written only under !IsDangerousURL(destination) and through URLEscape+EscapeHTML; the writer is passed only to a frozen set of external renderers; goldmark's WithUnsafe appears only in NewRouter under `if cfg.UnsafeHTML`, a field nothing in the package sets; default goldmark options install the image validator; the <gno-foreign> inner instance has no renderer options. Not covered: goldmark core, chroma, html/template components, frontend JS, the CLI flag default."
+	c.Explain = "R-TAINT over gno.land/pkg/gnoweb/markdown (+ the plain-text fallback in gno.land/pkg/gnoweb): every value written to the HTML output writer is a constant, a formatted number, an HTML-escaper result, or built only from such values (locals by all assignments, package struct fields by all writes, node attributes by all SetAttributeString sites, helper results by all returns); the link destination is written only under !IsDangerousURL(destination) and through URLEscape+EscapeHTML; the writer is passed only to a frozen set of external renderers; every reference to goldmark's WithUnsafe is on the true side of a test of AppConfig.UnsafeHTML, a field nothing in the package sets; default goldmark options install the image validator; the <gno-foreign> inner instance has no renderer options. Not covered: goldmark core, chroma, html/template components, frontend JS, the CLI flag default."
 	p := c.Load(c52Web, c52MD)
 	if p == nil {
 		return
@@ -684,51 +735,67 @@ func c52(c *engine.Ctx) {
 	c.Floor("writer-escape", nEscape, 3)
 
 	// ---- URL gate ----
-	if f := c.MustFunc(c52MD + ".(*linkRenderer).renderGnoLink"); f != nil {
-		info := f.Info()
-		g := f.Graph()
+	// Every write of a link/image destination to the HTML writer, wherever in the
+	// package it lives (the href emission may sit in a helper), is reached only when
+	// IsDangerousURL(destination) is false, and goes through URLEscape + EscapeHTML.
+	{
 		n := 0
-		for _, s := range f.Calls() {
-			se, ok := ast.Unparen(s.Call.Fun).(*ast.SelectorExpr)
-			if !ok || !c52IsBufWriter(info.TypeOf(se.X)) || len(s.Call.Args) != 1 {
-				continue
-			}
-			// a write whose argument mentions a .Destination field
-			var dest ast.Expr
-			ast.Inspect(s.Call.Args[0], func(nd ast.Node) bool {
-				if x, ok := nd.(*ast.SelectorExpr); ok && x.Sel.Name == "Destination" {
-					dest = x
-				}
-				return true
-			})
-			if dest == nil {
-				continue
-			}
-			n++
-			ok2, why := false, "no `!IsDangerousURL("+engine.ExprString(dest)+")` test gates the href write"
-			for _, gt := range g.Gates(s) {
-				cond := ast.Unparen(gt.Cond)
-				neg := false
-				if u, isU := cond.(*ast.UnaryExpr); isU && u.Op == token.NOT {
-					cond, neg = ast.Unparen(u.X), true
-				}
-				call, isCall := cond.(*ast.CallExpr)
-				if !isCall || ceCallName(info, call) != c52GM+"/renderer/html.IsDangerousURL" {
-					if engine.MentionsName(gt.Cond, "IsDangerousURL") {
-						why = "IsDangerousURL test is combined with other conditions: `" + engine.ExprString(gt.Cond) + "`"
-					}
+		for _, f := range p.FuncsIn(c52MD) {
+			info := f.Info()
+			g := f.Graph()
+			for _, s := range f.Calls() {
+				se, ok := ast.Unparen(s.Call.Fun).(*ast.SelectorExpr)
+				if !ok || !c52IsBufWriter(info.TypeOf(se.X)) || len(s.Call.Args) != 1 {
 					continue
 				}
-				if len(call.Args) == 1 && engine.ExprString(call.Args[0]) == engine.ExprString(dest) && neg == gt.OnTrue {
-					ok2, why = true, "href written only when IsDangerousURL(destination) is false"
+				var dest ast.Expr
+				ast.Inspect(s.Call.Args[0], func(nd ast.Node) bool {
+					if x, ok := nd.(*ast.SelectorExpr); ok && x.Sel.Name == "Destination" {
+						if sel := info.Selections[x]; sel != nil && sel.Kind() == types.FieldVal {
+							dest = x
+						}
+					}
+					return true
+				})
+				if dest == nil {
+					continue
 				}
+				n++
+				ok2, why := false, "no `!IsDangerousURL("+engine.ExprString(dest)+")` test gates the href write"
+				for _, gt := range g.Gates(s) {
+					full := ast.Unparen(gt.Full())
+					// facts holding at the site: conjuncts on the true side, disjuncts on the false side
+					var atoms []ast.Expr
+					if gt.OnTrue {
+						atoms = engine.Conjuncts(full, token.LAND)
+					} else {
+						atoms = engine.Conjuncts(full, token.LOR)
+					}
+					for _, a := range atoms {
+						cond := ast.Unparen(a)
+						neg := false
+						if u, isU := cond.(*ast.UnaryExpr); isU && u.Op == token.NOT {
+							cond, neg = ast.Unparen(u.X), true
+						}
+						call, isCall := cond.(*ast.CallExpr)
+						if !isCall || ceCallName(info, call) != c52GM+"/renderer/html.IsDangerousURL" || len(call.Args) != 1 {
+							continue
+						}
+						// the fact at the site is "IsDangerousURL(dest) == false" iff neg == gt.OnTrue
+						if engine.ExprString(call.Args[0]) == engine.ExprString(dest) && neg == gt.OnTrue {
+							ok2, why = true, "href written only when IsDangerousURL(destination) is false"
+						}
+					}
+					if !ok2 && engine.MentionsName(gt.Cond, "IsDangerousURL") {
+						why = "IsDangerousURL test does not establish a safe scheme at the write: `" + engine.ExprString(gt.Cond) + "`"
+					}
+				}
+				chain := engine.ExprString(s.Call.Args[0])
+				if ok2 && !(strings.Contains(chain, "EscapeHTML(") && strings.Contains(chain, "URLEscape(")) {
+					ok2, why = false, "destination is not written through util.EscapeHTML(util.URLEscape(..))"
+				}
+				c.Check("url-gate", f.Name+" href ← "+engine.ExprString(dest), s.Pos(), ok2, why)
 			}
-			// and the value goes through URLEscape + EscapeHTML
-			chain := engine.ExprString(s.Call.Args[0])
-			if ok2 && !(strings.Contains(chain, "EscapeHTML(") && strings.Contains(chain, "URLEscape(")) {
-				ok2, why = false, "destination is not written through util.EscapeHTML(util.URLEscape(..))"
-			}
-			c.Check("url-gate", f.Name+" href ← "+engine.ExprString(dest), s.Pos(), ok2, why)
 		}
 		c.Floor("url-gate", n, 1)
 	}
@@ -741,21 +808,46 @@ func c52(c *engine.Ctx) {
 			c.Check("unsafe-gate", "<package-level>", r.Ident.Pos(), false, "WithUnsafe referenced at package level")
 			continue
 		}
-		key := r.Fn.Root().Name + " WithUnsafe"
-		if r.Fn.Root().Name != c52Web+".NewRouter" {
-			c.Check("unsafe-gate", key, r.Ident.Pos(), false, "raw-HTML mode may be enabled only by NewRouter under cfg.UnsafeHTML")
-			continue
-		}
+		// Wherever the option is built (NewRouter or a private config helper), the
+		// reference itself must sit on the true side of the AppConfig.UnsafeHTML field.
+		key := "WithUnsafe in " + r.Fn.Root().Name
 		site := r.Fn.SiteOf(r.Ident)
-		ok, why := false, "WithUnsafe is not gated by `cfg.UnsafeHTML`"
+		ok, why := false, "WithUnsafe is not gated by the AppConfig.UnsafeHTML field"
+		isFlag := func(e ast.Expr) bool {
+			e = ast.Unparen(e)
+			// a single-definition local holding the flag
+			if id, isId := e.(*ast.Ident); isId {
+				if def := ceSingleDef(r.Fn, r.Fn.Info().ObjectOf(id)); def != nil {
+					e = ast.Unparen(def)
+				}
+			}
+			se, isSel := e.(*ast.SelectorExpr)
+			if !isSel {
+				return false
+			}
+			v, _ := r.Fn.Info().Uses[se.Sel].(*types.Var)
+			return v != nil && v == p.Field(c52Web+".AppConfig.UnsafeHTML")
+		}
 		if site != nil {
 			for _, gt := range r.Fn.Graph().Gates(site) {
-				if se, isSel := ast.Unparen(gt.Cond).(*ast.SelectorExpr); isSel && gt.OnTrue {
-					if v, _ := r.Fn.Info().Uses[se.Sel].(*types.Var); v != nil && v == p.Field(c52Web+".AppConfig.UnsafeHTML") {
+				var atoms []ast.Expr
+				if gt.OnTrue {
+					atoms = engine.Conjuncts(gt.Full(), token.LAND)
+				} else {
+					atoms = engine.Conjuncts(gt.Full(), token.LOR)
+				}
+				for _, a := range atoms {
+					a = ast.Unparen(a)
+					neg := false
+					if u, isU := a.(*ast.UnaryExpr); isU && u.Op == token.NOT {
+						a, neg = u.X, true
+					}
+					if isFlag(a) && neg != gt.OnTrue {
 						ok, why = true, "reached only when cfg.UnsafeHTML is true"
 					}
-				} else if engine.MentionsName(gt.Cond, "UnsafeHTML") {
-					why = "UnsafeHTML test is combined with other conditions: `" + engine.ExprString(gt.Cond) + "`"
+				}
+				if !ok && engine.MentionsName(gt.Cond, "UnsafeHTML") {
+					why = "the UnsafeHTML test does not by itself imply UnsafeHTML at the reference: `" + engine.ExprString(gt.Cond) + "`"
 				}
 			}
 		}
